@@ -591,6 +591,8 @@ class _PathEval:
 
     def ev(self, e, env=None):
         env = env or {}
+        if isinstance(e, (ast.Attribute, ast.Call)) and unparse(e) in env:
+            return env[unparse(e)]            # a sample given for this very expression (`self.top_module_namespaces`)
         if isinstance(e, ast.Constant) and isinstance(e.value, (str, int)) or (isinstance(e, ast.Constant) and e.value is None):
             return e.value
         if isinstance(e, ast.Name):
@@ -619,6 +621,19 @@ class _PathEval:
             if not isinstance(sep, str) or not isinstance(items, list) or not all(isinstance(x, str) for x in items):
                 raise self.Unknown("join of non-strings")
             return sep.join(items)
+        if isinstance(e, ast.Call) and isinstance(e.func, ast.Attribute) and e.func.attr == "format" \
+                and not any(isinstance(a_, ast.Starred) for a_ in e.args) and all(k.arg for k in e.keywords):
+            tpl = self.ev(e.func.value, env)
+            if not isinstance(tpl, str):
+                raise self.Unknown("format of a non-string")
+            args_ = [self.ev(a_, env) for a_ in e.args]
+            kw_ = {k.arg: self.ev(k.value, env) for k in e.keywords}
+            if not all(isinstance(x, (str, int)) for x in list(args_) + list(kw_.values())):
+                raise self.Unknown("format of non-text values")
+            try:
+                return tpl.format(*args_, **kw_)          # the analyser's own sample values, formatted by the analyser
+            except (IndexError, KeyError, ValueError):
+                raise self.Unknown("format fields do not match the arguments")
         if isinstance(e, ast.Call) and unparse(e.func) in ("osp.join", "os.path.join", "posixpath.join") and e.args and not e.keywords:
             # posix semantics, written out: empty components vanish, an absolute component restarts the path
             parts = [self.ev(a_, env) for a_ in e.args]
@@ -672,12 +687,168 @@ class _PathEval:
                 return base[i]
             except Exception:
                 raise self.Unknown("index out of range")
-        if isinstance(e, ast.Compare) and len(e.ops) == 1 and isinstance(e.ops[0], (ast.Eq, ast.NotEq)):
+        if isinstance(e, ast.Compare) and len(e.ops) == 1:
             l, r = self.ev(e.left, env), self.ev(e.comparators[0], env)
-            return (l == r) if isinstance(e.ops[0], ast.Eq) else (l != r)
+            op = e.ops[0]
+            try:
+                res = {ast.Eq: lambda: l == r, ast.NotEq: lambda: l != r, ast.In: lambda: l in r, ast.NotIn: lambda: l not in r,
+                       ast.Lt: lambda: l < r, ast.LtE: lambda: l <= r, ast.Gt: lambda: l > r, ast.GtE: lambda: l >= r}.get(type(op))
+                if res is None:
+                    raise self.Unknown("comparison")
+                return res()
+            except TypeError:
+                raise self.Unknown("comparison of different kinds")
+        if isinstance(e, ast.UnaryOp) and isinstance(e.op, ast.Not):
+            return not self.ev(e.operand, env)
+        if isinstance(e, ast.BoolOp):
+            v = None
+            for x in e.values:
+                v = self.ev(x, env)
+                if bool(v) != isinstance(e.op, ast.And):
+                    return v
+            return v
         if isinstance(e, ast.IfExp):
             return self.ev(e.body, env) if self.ev(e.test, env) else self.ev(e.orelse, env)
         raise self.Unknown(f"{type(e).__name__} `{unparse(e)[:40]}`")
+
+
+class _Return(Exception):
+    def __init__(self, value):
+        self.value = value
+
+
+class _LoopCtl(Exception):
+    def __init__(self, kind):
+        self.kind = kind
+
+
+def mini_exec(fn: ast.FunctionDef, args: Dict[str, object], budget: int = 2000):
+    """Runs a small, side-effect-free function of the analysed program on *sample* arguments with the analyser's own
+    interpreter (assignments to names, if / for / while-free loops over lists and ranges, return, and the expression forms
+    of _PathEval plus range / min / max / zip / enumerate / all / any).  Anything else raises _PathEval.Unknown."""
+    pe = _PathEval(fn, [])
+    env: Dict[str, object] = dict(args)
+    steps = [0]
+
+    def ev(e):
+        if isinstance(e, ast.Call) and isinstance(e.func, ast.Name) and e.func.id in ("range", "min", "max", "zip", "enumerate", "all", "any", "len", "list", "tuple", "bool", "sorted", "reversed"):
+            vals = [ev(a_) for a_ in e.args]
+            f_ = {"range": range, "min": min, "max": max, "zip": zip, "enumerate": enumerate, "all": all, "any": any, "len": len, "list": list,
+                  "tuple": tuple, "bool": bool, "sorted": sorted, "reversed": reversed}[e.func.id]
+            try:
+                r = f_(*vals)
+            except TypeError:
+                raise _PathEval.Unknown(f"{e.func.id}() of these samples")
+            return list(r) if e.func.id in ("range", "zip", "enumerate", "reversed") else r
+        if isinstance(e, (ast.GeneratorExp, ast.ListComp)) and len(e.generators) == 1:
+            g = e.generators[0]
+            out = []
+            saved = dict(env)
+            for item in ev(g.iter):
+                bind(g.target, item)
+                if all(ev(c) for c in g.ifs):
+                    out.append(ev(e.elt))
+            env.clear()
+            env.update(saved)
+            return out
+        if isinstance(e, ast.Name):
+            if e.id in env:
+                return env[e.id]
+            if e.id in ("True", "False", "None"):
+                return {"True": True, "False": False, "None": None}[e.id]
+            raise _PathEval.Unknown(f"name {e.id}")
+        if isinstance(e, ast.Constant):
+            return e.value
+        if isinstance(e, ast.Compare) and len(e.ops) == 1:
+            l, r = ev(e.left), ev(e.comparators[0])
+            op = type(e.ops[0])
+            table = {ast.Eq: lambda: l == r, ast.NotEq: lambda: l != r, ast.In: lambda: l in r, ast.NotIn: lambda: l not in r, ast.Lt: lambda: l < r,
+                     ast.LtE: lambda: l <= r, ast.Gt: lambda: l > r, ast.GtE: lambda: l >= r, ast.Is: lambda: l is r, ast.IsNot: lambda: l is not r}
+            if op not in table:
+                raise _PathEval.Unknown("comparison")
+            return table[op]()
+        if isinstance(e, ast.UnaryOp) and isinstance(e.op, ast.Not):
+            return not ev(e.operand)
+        if isinstance(e, ast.BoolOp):
+            v = None
+            for x in e.values:
+                v = ev(x)
+                if bool(v) != isinstance(e.op, ast.And):
+                    return v
+            return v
+        if isinstance(e, ast.IfExp):
+            return ev(e.body) if ev(e.test) else ev(e.orelse)
+        if isinstance(e, ast.Subscript):
+            base = ev(e.value)
+            if isinstance(e.slice, ast.Slice):
+                lo = ev(e.slice.lower) if e.slice.lower is not None else None
+                hi = ev(e.slice.upper) if e.slice.upper is not None else None
+                st = ev(e.slice.step) if e.slice.step is not None else None
+                return base[lo:hi:st]
+            try:
+                return base[ev(e.slice)]
+            except (IndexError, KeyError, TypeError):
+                raise _PathEval.Unknown("subscript out of range on these samples")
+        if isinstance(e, ast.BinOp) and isinstance(e.op, (ast.Add, ast.Sub)):
+            l, r = ev(e.left), ev(e.right)
+            try:
+                return l + r if isinstance(e.op, ast.Add) else l - r
+            except TypeError:
+                raise _PathEval.Unknown("arithmetic on these samples")
+        if isinstance(e, (ast.List, ast.Tuple)):
+            return [ev(x) for x in e.elts]
+        return pe.ev(e, {k: v for k, v in env.items()})
+
+    def bind(t, v):
+        if isinstance(t, ast.Name):
+            env[t.id] = v
+        elif isinstance(t, (ast.Tuple, ast.List)) and isinstance(v, (list, tuple)) and len(v) == len(t.elts):
+            for x, y in zip(t.elts, v):
+                bind(x, y)
+        else:
+            raise _PathEval.Unknown("assignment target")
+
+    def run(stmts):
+        for st in stmts:
+            steps[0] += 1
+            if steps[0] > budget:
+                raise _PathEval.Unknown("too many steps")
+            if isinstance(st, ast.Expr) and isinstance(st.value, ast.Constant):
+                continue
+            if isinstance(st, ast.Return):
+                raise _Return(ev(st.value) if st.value is not None else None)
+            if isinstance(st, ast.Assign) and len(st.targets) == 1:
+                bind(st.targets[0], ev(st.value))
+            elif isinstance(st, ast.AugAssign) and isinstance(st.target, ast.Name) and isinstance(st.op, (ast.Add, ast.Sub)):
+                cur = env.get(st.target.id)
+                env[st.target.id] = cur + ev(st.value) if isinstance(st.op, ast.Add) else cur - ev(st.value)
+            elif isinstance(st, ast.If):
+                run(st.body if ev(st.test) else st.orelse)
+            elif isinstance(st, ast.For):
+                broke = False
+                for item in ev(st.iter):
+                    bind(st.target, item)
+                    try:
+                        run(st.body)
+                    except _LoopCtl as c:
+                        if c.kind == "break":
+                            broke = True
+                            break
+                if not broke:
+                    run(st.orelse)
+            elif isinstance(st, ast.Continue):
+                raise _LoopCtl("continue")
+            elif isinstance(st, ast.Break):
+                raise _LoopCtl("break")
+            elif isinstance(st, ast.Pass):
+                continue
+            else:
+                raise _PathEval.Unknown(f"statement {type(st).__name__}")
+    try:
+        run(fn.body)
+    except _Return as r:
+        return r.value
+    return None
 
 
 def rule_package_paths(ctx, rep: Report, rid="T3", min_sites=4):
